@@ -5,6 +5,10 @@
 //!   mcsim run-trace <file> [--log]           execute a bare trace (debugging)
 //!   mcsim show <PROP> <tier> <unit>          print the trace of one unit of a plan
 //!   mcsim selftest [n]                       determinism self-test
+//!   mcsim gen <seed> <ids>                   print expression <seed> of the generator (ids: 0 none, 1 some, 2 all)
+//!   mcsim try <mathml>...                    (debugging) set_mathml, speech, braille of each argument in one fresh session
+//!   mcsim genscan <from> <to>                (debugging) every API on generated expressions; distinct panic sites
+mod mml;
 mod exec;
 mod faults;
 mod findings;
@@ -58,6 +62,12 @@ fn main() {
         "replay" if args.len() >= 3 => supervisor::replay(&args[2]),
         "run-trace" if args.len() >= 3 => supervisor::run_trace(&args[2], args.iter().any(|a| a == "--log")),
         "show" if args.len() >= 5 => supervisor::show(&args[2], &args[3], args[4].parse().unwrap_or(0)),
+        "gen" if args.len() >= 4 => {
+            println!("{}", mml::generate(args[2].parse().unwrap_or(0), mml::id_mode(args[3].parse().unwrap_or(0))));
+            0
+        }
+        "try" if args.len() >= 3 => exec::try_exprs(&args[2..]),
+        "genscan" if args.len() >= 4 => exec::genscan(args[2].parse().unwrap_or(0), args[3].parse().unwrap_or(1000)),
         "selftest" => supervisor::selftest(args.get(2).and_then(|s| s.parse().ok()).unwrap_or(200)),
         _ => {
             eprintln!("bad arguments");
